@@ -9,9 +9,33 @@
 package verifseam
 
 import (
+	"os"
 	"sort"
 	"time"
 )
+
+// A real binary built with the seam can be told, through the environment, to visit every map in another fixed
+// order (C13 runs the command line under each of them: its output must not depend on it):
+// VERIF_SEAM_ORDER = reverse | rotate (anything else: sorted).
+func init() {
+	switch os.Getenv("VERIF_SEAM_ORDER") {
+	case "reverse":
+		OrderHook = func(site string, sorted []string) []string {
+			out := make([]string, len(sorted))
+			for i, k := range sorted {
+				out[len(sorted)-1-i] = k
+			}
+			return out
+		}
+	case "rotate":
+		OrderHook = func(site string, sorted []string) []string {
+			if len(sorted) < 2 {
+				return sorted
+			}
+			return append(append([]string{}, sorted[1:]...), sorted[0])
+		}
+	}
+}
 
 // OrderHook, when set, decides the visiting order of the (sorted) keys at a range-over-map site.
 var OrderHook func(site string, sorted []string) []string
